@@ -12,6 +12,11 @@
             [SinkParser.anonymousNode]: [_anonymousNodes] miss -> [RDFSink.newBlankNode]:
             [counter += 1; BNode("n%sb%s" % (uuid, counter))]; the nodes of [ ... ] come from the
             same counter): one uuid4 per parse call, the node is "n<uuid>b<c>" = [nid sid c], c >= 1
+            Notation3 (format="n3") is the same SinkParser with a root Formula: a _:label gets
+            "f<uuid of the root formula>b<counter>" ([Formula.newBlankNode], one uuid4 per parse
+            call) and a [ ... ] or path node "ub<k>bL<line>C<column>" ([uniqueURI()]: k counts
+            the parser objects of the process): again one process-wide draw per call and a
+            second component that differs from node to node within the call - it is run as ASink.
      AKeep  HexTuples, JSON-LD, and RDF/XML / TriX under preserve_bnode_ids=True: [BNode(label)],
             no table, no draw.
    [nid : N -> N -> N] is the id as a number; that different (uuid, counter) pairs give
@@ -28,7 +33,7 @@ Definition alloc_of (d : doc) : alloc :=
   if d_keep d then AKeep
   else match d_fmt d with
        | NT | NQ | XML | TRIX => AUuid
-       | TTL | TRIG => ASink
+       | TTL | TRIG | N3 => ASink
        | JLD | HEXT => AKeep
        end.
 
